@@ -50,6 +50,17 @@ func (g *c14Graph) absval(st *c14Store, ctx *c14Ctx, e ast.Expr) int8 {
 		if tv.IsNil() {
 			return c14Nil
 		}
+		// integers: c14Nil / c14NonNil stand for "is / is not the zero value" (a zero id is the closed-channel sentinel)
+		if tv.Value != nil && tv.Value.Kind() == constant.Int {
+			if constant.Sign(tv.Value) == 0 {
+				return c14Nil
+			}
+			// small constants are known exactly (flags turned into small enums): code 20+k, which implies "not zero"
+			if k, exact := constant.Int64Val(tv.Value); exact && k > 0 && k <= 100 {
+				return int8(20 + k)
+			}
+			return c14NonNil
+		}
 	}
 	switch x := e.(type) {
 	case *ast.Ident:
@@ -94,16 +105,25 @@ func (g *c14Graph) absval(st *c14Store, ctx *c14Ctx, e ast.Expr) int8 {
 			return 0
 		case token.EQL, token.NEQ:
 			var other ast.Expr
-			if c14NilIdent(info, x.Y) {
+			if c14ZeroLit(info, x.Y) {
 				other = x.X
-			} else if c14NilIdent(info, x.X) {
+			} else if c14ZeroLit(info, x.X) {
 				other = x.Y
 			}
 			if other != nil {
-				switch g.absval(st, ctx, other) {
-				case c14Nil:
+				switch v := g.absval(st, ctx, other); {
+				case v == c14Nil:
 					return c14Bool(x.Op == token.EQL)
-				case c14NonNil:
+				case c14NonZero(v):
+					return c14Bool(x.Op == token.NEQ)
+				}
+			} else {
+				// comparison with a small non-zero constant
+				a, b := g.absval(st, ctx, x.X), g.absval(st, ctx, x.Y)
+				switch {
+				case a > 20 && b > 20:
+					return c14Bool((a == b) == (x.Op == token.EQL))
+				case (a > 20 && b == c14Nil) || (b > 20 && a == c14Nil):
 					return c14Bool(x.Op == token.NEQ)
 				}
 			}
@@ -221,9 +241,9 @@ func (g *c14Graph) learn(st *c14Store, ctx *c14Ctx, e ast.Expr, val bool) *c14St
 		case *ast.BinaryExpr:
 			if x.Op == token.EQL || x.Op == token.NEQ {
 				var other ast.Expr
-				if c14NilIdent(info, x.Y) {
+				if c14ZeroLit(info, x.Y) {
 					other = x.X
-				} else if c14NilIdent(info, x.X) {
+				} else if c14ZeroLit(info, x.X) {
 					other = x.Y
 				}
 				if other != nil {
@@ -236,12 +256,34 @@ func (g *c14Graph) learn(st *c14Store, ctx *c14Ctx, e ast.Expr, val bool) *c14St
 					}
 					return
 				}
+				// `x == K` found true for a small constant K: x is K
+				if (x.Op == token.EQL) == val {
+					for _, p := range [][2]ast.Expr{{x.X, x.Y}, {x.Y, x.X}} {
+						if c := g.absval(st, ctx, p[1]); c > 20 {
+							if k, ok := g.lvalKey(ctx, p[0]); ok {
+								m[k] = c
+							}
+						}
+					}
+				}
 			}
 			if k, neg, ok := g.atomKey(ctx, x); ok {
 				m[k] = c14Bool(val != neg)
 			}
 		}
 	})
+}
+
+// c14NonZero: the abstract value says "not nil / not zero" (possibly an exactly known small constant).
+func c14NonZero(v int8) bool { return v == c14NonNil || v > 20 }
+
+// c14ZeroLit: the expression is `nil` or an integer constant equal to zero.
+func c14ZeroLit(info *types.Info, e ast.Expr) bool {
+	if c14NilIdent(info, e) {
+		return true
+	}
+	tv, ok := info.Types[ast.Unparen(e)]
+	return ok && tv.Value != nil && tv.Value.Kind() == constant.Int && constant.Sign(tv.Value) == 0
 }
 
 func c14ZeroVal(t types.Type) int8 {
@@ -252,6 +294,9 @@ func c14ZeroVal(t types.Type) int8 {
 	case *types.Basic:
 		if u.Info()&types.IsBoolean != 0 {
 			return c14False
+		}
+		if u.Info()&types.IsInteger != 0 {
+			return c14Nil // "zero"
 		}
 	case *types.Pointer, *types.Slice, *types.Map, *types.Chan, *types.Signature, *types.Interface:
 		return c14Nil
@@ -280,7 +325,7 @@ func (g *c14Graph) transferScalars(st *c14Store, n *c14Node) *c14Store {
 		}
 		return 0
 	}
-	switch x := n.ast.(type) {
+	switch x := c14EffectAst(n).(type) {
 	case *ast.AssignStmt:
 		for i, l := range x.Lhs {
 			o := objOf(info, l)
